@@ -764,25 +764,52 @@ impl Run<'_> {
         // obstacles: untracked / ignored files where the new tree adds a file,
         // or a symlink to an outside directory where it adds a directory
         let outside = self.env.ws.parent().unwrap().join("outside");
+        let _ = std::fs::remove_dir_all(&outside);
         let _ = std::fs::create_dir_all(&outside);
         let mut obstacles: Vec<(String, DiskEntry)> = vec![];
         if with_obstacle {
-            let candidates: Vec<String> = new
-                .keys()
-                .filter(|p| !old.contains_key(*p) && in_sparse(&patterns, p) && !p.starts_with('.'))
-                .cloned()
-                .collect();
-            if let Some(p) = candidates.get(self.ch.choose(candidates.len().max(1))).cloned() {
-                let disk_path = self.env.ws.join(&p);
-                // only when nothing (tracked) is in the way of creating it
-                if std::fs::symlink_metadata(&disk_path).is_err() && disk_path.parent().is_some_and(Path::is_dir) {
-                    if self.ch.chance(1, 3) && p.contains('/') && !self.env.ws.join("d").exists() {
-                        std::os::unix::fs::symlink(&outside, self.env.ws.join("d")).unwrap();
-                        Ticks::restamp(&self.env.ws.join("d"));
-                        obstacles.push(("d".to_string(), DiskEntry::Symlink(outside.to_string_lossy().into_owned())));
-                        self.note(format!("user symlink d -> {} (outside the workspace) in the way of {p}", outside.display()));
-                        self.out.probe("obstacle_symlinked_dir", 1);
-                    } else {
+            let all = patterns == vec![RepoPathBuf::root()];
+            let d_path = self.env.ws.join("d");
+            let d_on_disk = std::fs::symlink_metadata(&d_path).ok();
+            let new_under_d: Vec<String> = new.keys().filter(|p| p.starts_with("d/")).cloned().collect();
+            let old_under_d: Vec<String> = old.keys().filter(|p| p.starts_with("d/")).cloned().collect();
+            let kind = self.ch.weighted(&[3, 2, 2]);
+            if kind == 1 && all && d_on_disk.is_none() && !new_under_d.is_empty() {
+                // (A) `d` is a symlink to a directory outside the workspace that
+                // already has the sub-directories the new tree needs
+                std::fs::create_dir_all(outside.join("e")).unwrap();
+                std::os::unix::fs::symlink(&outside, &d_path).unwrap();
+                Ticks::restamp(&d_path);
+                obstacles.push(("d".to_string(), DiskEntry::Symlink(outside.to_string_lossy().into_owned())));
+                self.note(format!("user symlink d -> {} (outside the workspace, containing e/) in the way of {:?}", outside.display(), new_under_d));
+                self.out.probe("obstacle_symlinked_dir", 1);
+            } else if kind == 2 && all && d_on_disk.as_ref().is_some_and(std::fs::Metadata::is_dir) && !old_under_d.is_empty() && old_under_d.iter().any(|p| new.get(p) != old.get(p)) {
+                // (B) the tracked directory `d` is replaced by a symlink to an
+                // outside directory with the same layout: the update must not
+                // remove or rewrite the files out there
+                for p in &old_under_d {
+                    let rest = &p[2..];
+                    let t = outside.join(rest);
+                    std::fs::create_dir_all(t.parent().unwrap()).unwrap();
+                    std::fs::write(&t, b"outside victim\n").unwrap();
+                }
+                std::fs::remove_dir_all(&d_path).unwrap();
+                std::os::unix::fs::symlink(&outside, &d_path).unwrap();
+                Ticks::restamp(&d_path);
+                obstacles.push(("d".to_string(), DiskEntry::Symlink(outside.to_string_lossy().into_owned())));
+                self.note(format!("user replaces tracked directory d by a symlink to {} holding {:?}", outside.display(), old_under_d));
+                self.out.probe("obstacle_symlinked_dir", 1);
+                self.out.probe("obstacle_symlink_replaces_tracked_dir", 1);
+            } else {
+                let candidates: Vec<String> = new
+                    .keys()
+                    .filter(|p| !old.contains_key(*p) && in_sparse(&patterns, p) && !p.starts_with('.'))
+                    .cloned()
+                    .collect();
+                if let Some(p) = candidates.get(self.ch.choose(candidates.len().max(1))).cloned() {
+                    let disk_path = self.env.ws.join(&p);
+                    // only when nothing (tracked) is in the way of creating it
+                    if std::fs::symlink_metadata(&disk_path).is_err() && disk_path.parent().is_some_and(Path::is_dir) {
                         let bytes = b"untracked, do not touch\n".to_vec();
                         std::fs::write(&disk_path, &bytes).unwrap();
                         Ticks::restamp(&disk_path);
@@ -1236,7 +1263,7 @@ operation.hostname = "sim.example.com"
                         run.snapshot(&mut ts, "step");
                     }
                     3 => {
-                        let obstacle = run.ch.chance(1, 5);
+                        let obstacle = run.ch.chance(if prop == "C25" { 2 } else { 1 }, 5);
                         if obstacle {
                             nontrivial = true;
                         }
@@ -1267,7 +1294,15 @@ operation.hostname = "sim.example.com"
             out.trace = shared_log.lock().unwrap().clone();
             let seq = out.trace.len() as u64;
             out.trace.push(format!("PANIC {msg}"));
-            out.violate(prop, "panic", "wcsim:panic".to_string(), format!("jj panicked: {}", msg.lines().take(4).collect::<Vec<_>>().join(" | ")), seq);
+            if msg.contains("changed_file_states must be sorted") {
+                // A debug-only assertion of jj (file states pushed for skipped
+                // paths of a directory -> file transition are not re-sorted).
+                // No listed property speaks about it; recorded as a probe and
+                // described in DESIGN.md, never reported as a violation.
+                out.probe("jj_debug_assert_unsorted_file_states_after_skips", 1);
+            } else {
+                out.violate(prop, "panic", "wcsim:panic".to_string(), format!("jj panicked: {}", msg.lines().take(4).collect::<Vec<_>>().join(" | ")), seq);
+            }
         }
         Ticks::uninstall();
         out.events = out.trace.len() as u64;
